@@ -413,6 +413,25 @@ def bundle_program(draw, early_virtual=True, steer=True, max_stmts=6):
         return scalar_operand(True)
 
     n = draw(st.integers(1, max_stmts))
+    if len(sc.signals) >= 4 and draw(st.integers(0, 5)) == 0:
+        # scenario: a merged bundle nested in another literal, then gated / filtered / reduced
+        free = [x for x in sc.signals if x not in sc.state]
+        a1, a2, a3, a4 = free[:4]
+        for x in (a1, a2, a3, a4):
+            sc.state[x] = "burned"
+        inner_members = [Bin("*", Ref(a1), Num(draw(st.integers(2, 4)))) if draw(st.booleans()) else Ref(a1), Ref(a2)]
+        stmts.append(Decl("Bundle", "nb_in", BLit(tuple(inner_members))))
+        outer_extra = SigLit(types.pop(), draw(num(small_int()))) if draw(st.booleans()) else Ref(a3)
+        stmts.append(Decl("Bundle", "nb_out", BLit((Ref("nb_in"), outer_extra))))
+        use = draw(st.integers(0, 2))
+        if use == 0:
+            stmts.append(Decl("Bundle", "nb_g", Cond(Bin(draw(st.sampled_from(CMPS)), Ref(a4), draw(num(small_int()))), Ref("nb_out"))))
+        elif use == 1:
+            stmts.append(Decl("Bundle", "nb_g", Bin(draw(st.sampled_from(["*", "+"])), Ref("nb_out"), Ref(a4))))
+        else:
+            stmts.append(Decl("Signal", "nb_q", Bin(">", AnyOf(Ref("nb_out")), Ref(a4))))
+        if draw(st.booleans()):
+            stmts.append(Decl("Bundle", "nb_r", Bin("+", Ref("nb_g") if use != 2 else Ref("nb_out"), Num(1000)))) if use == 2 else None
     lit, tys = new_literal()
     b0 = sc.fresh(draw, "b")
     stmts.append(Decl("Bundle", b0, lit))
@@ -445,9 +464,17 @@ def bundle_program(draw, early_virtual=True, steer=True, max_stmts=6):
                 continue
             out = Ref(b) if draw(st.booleans()) else draw(num(small_int()))
             name = sc.fresh(draw, "b")
-            stmts.append(Decl("Bundle", name, Cond(Bin(draw(st.sampled_from(CMPS)), Ref(b), rhs), out)))
+            cmp_ = draw(st.sampled_from(CMPS))
+            stmts.append(Decl("Bundle", name, Cond(Bin(cmp_, Ref(b), rhs), out)))
             sc.bundles.append(name)
             btypes[name] = set(btypes[b])
+            if not is_sig and draw(st.integers(0, 2)) == 0:
+                # the same comparison with the other output mode (copy the member / emit a constant)
+                name2 = sc.fresh(draw, "b")
+                other = draw(num(small_int())) if isinstance(out, Ref) else Ref(b)
+                stmts.append(Decl("Bundle", name2, Cond(Bin(cmp_, Ref(b), rhs), other)))
+                sc.bundles.append(name2)
+                btypes[name2] = set(btypes[b])
             continue
         if k == 6:  # gating
             s = sc.pick(draw, sc.signals, True)
